@@ -20,9 +20,16 @@ def seeds():
         m = json.load(open(f))
         pid = os.path.basename(os.path.dirname(f))
         v = m.get('check_verdicts', {})
-        line = '; '.join('%s: %s' % (k, (x.get('violation_line') or 'no VIOLATION').replace('/verif/replays/', '')) for k, x in v.items())
+        rc = m.get('recheck') if isinstance(m.get('recheck'), dict) else None
+        if rc:          # the latest run of the registered check against the change (tools/seed_recheck.py)
+            line = '%s: %s' % (pid[:3], (rc.get('violation_line') or 'no VIOLATION').replace('/verif/replays/', ''))
+        else:
+            line = '; '.join('%s: %s' % (k, (x.get('violation_line') or 'no VIOLATION').replace('/verif/replays/', '')) for k, x in v.items())
+        how = 'NO'
+        if m.get('caught'):
+            how = 'yes, no-failing-input-found' if 'no-failing-input-found' in line and 'replay=' in line and line.count('VIOLATION') == line.count('no-failing-input-found') else 'yes, concrete input'
         out.append('| %s | %s | %s | %s | %s |' % (pid, str(m.get('summary', ''))[:300].replace('|', '\\|'), str(m.get('needs', ''))[:200].replace('|', '\\|'),
-                                                  'yes' if m.get('caught') else 'NO', line[:160]))
+                                                  how, line[:160]))
     return '\n'.join(out)
 def theorems():
     out = ['| property | theorems in coq/Props (all re-checked on every run, `Print Assumptions` = closed) |', '|---|---|']
